@@ -83,9 +83,20 @@ Theorem C44_sound : forall (H : str -> N) n e D V by_ set, (0 < n)%N ->
 Proof. exact sound. Qed.
 Print Assumptions C44_sound.
 
-Theorem C44_sound_pred : forall (H : str -> N) n e D by_ set tbl, (0 < n)%N ->
+(* the frontend's MergeResponse (one sample per label set, the first seen) applied to the shard
+   results changes nothing: they have pairwise different label sets when the stored series do *)
+Theorem C44_sound_merged : forall (H : str -> N) n e D V by_ set, (0 < n)%N ->
   analyze (erase e) = St by_ set -> name_ok by_ set e = true ->
-  pred_ok (CEval e D n by_ set tbl (qeval e D) (shard_results H by_ set n e D)) = true.
+  has_dup (map fst D) = false -> qeval e D = Some V ->
+  exists rs, all_some (shard_results H by_ set n e D) = Some rs
+    /\ Permutation (concat rs) V /\ merge_vectors rs = concat rs.
+Proof. exact sound_merged. Qed.
+Print Assumptions C44_sound_merged.
+
+Theorem C44_sound_pred : forall (H : str -> N) n e D by_ set tbl, (0 < n)%N ->
+  analyze (erase e) = St by_ set -> name_ok by_ set e = true -> has_dup (map fst D) = false ->
+  pred_ok (CEval e D n by_ set tbl (qeval e D) (shard_results H by_ set n e D)
+                 (option_map merge_vectors (all_some (shard_results H by_ set n e D)))) = true.
 Proof. exact sound_pred. Qed.
 Print Assumptions C44_sound_pred.
 
@@ -97,7 +108,8 @@ Print Assumptions C44_analyzer_gives_sound_for.
 
 (* sum without (a) ({job="j"}) over m1{a="x",job="j"} = 1 and m2{a="x",job="j"} = 2: the analyzer
    says "shardable without [a]"; the two series differ in __name__, which the matcher hashes, so
-   they can sit on different shards, and each shard returns its own {job="j"} sample *)
+   they can sit on different shards, each shard returns its own {job="j"} sample, and the frontend's
+   MergeResponse silently keeps the first of the two (value 1 instead of 3) *)
 Definition w_job : str := [106;111;98]%N. Definition w_j : str := [106%N].
 Definition w_q : qexpr := QAgg ASum true [[97%N]] (QSel [MEq w_job w_j]).
 Definition w_D : vector :=
@@ -109,10 +121,12 @@ Theorem C44_without_drops_name_refuted :
   analyze (erase w_q) = St false [[97%N]] /\ shardable (analyze (erase w_q)) = true
   /\ qeval w_q w_D = Some [([(w_job, w_j)], 3%Z)]
   /\ sharded w_H false [[97%N]] 2 w_q w_D = Some [([(w_job, w_j)], 1%Z); ([(w_job, w_j)], 2%Z)]
-  /\ ~ Permutation [([(w_job, w_j)], 1%Z); ([(w_job, w_j)], 2%Z)] [([(w_job, w_j)], 3%Z)].
+  /\ ~ Permutation [([(w_job, w_j)], 1%Z); ([(w_job, w_j)], 2%Z)] [([(w_job, w_j)], 3%Z)]
+  /\ merge_vectors [[([(w_job, w_j)], 1%Z)]; [([(w_job, w_j)], 2%Z)]] = [([(w_job, w_j)], 1%Z)].
 Proof.
   split; [vm_compute; reflexivity|]. split; [vm_compute; reflexivity|].
   split; [vm_compute; reflexivity|]. split; [vm_compute; reflexivity|].
+  split; [|vm_compute; reflexivity].
   intro P. apply Permutation_length in P. vm_compute in P. discriminate.
 Qed.
 Print Assumptions C44_without_drops_name_refuted.
